@@ -82,3 +82,70 @@ fn k02_disambiguate_short_two_letters() {
     std::mem::forget(args);
     std::mem::forget(r);
 }
+
+/// K04: State::construct – 3 arguments, each one of `--`, `--k=v` (expands to two items) or `x`.
+/// From C09: "Everything after the first `--` is positional data ... and the separator itself is never delivered as a value";
+/// only the *first* `--` is the separator, whatever items precede it.
+#[kani::proof]
+#[kani::unwind(8)]
+fn k04_construct_double_dash_3args() {
+    let mut words: Vec<OsString> = Vec::with_capacity(3);
+    let mut kinds = [0u8; 3];
+    let mut i = 0;
+    while i < 3 {
+        let k: u8 = kani::any();
+        kani::assume(k < 3);
+        kinds[i] = k;
+        words.push(match k {
+            0 => OsString::from("--"),
+            1 => OsString::from("--k=v"),
+            _ => OsString::from("x"),
+        });
+        i += 1;
+    }
+    let mut err = None;
+    let st = State::construct(Args::from(&words[..]), &[], &[], &mut err);
+    assert!(err.is_none());
+    // expected shape
+    let mut exp_pos = [false; 6];   // item is a PosWord
+    let mut exp_parsed = [false; 6];
+    let mut n = 0;
+    let mut seen_dd = false;
+    let mut i = 0;
+    while i < 3 {
+        if seen_dd {
+            exp_pos[n] = true;
+            n += 1;
+        } else if kinds[i] == 0 {
+            seen_dd = true;
+            exp_pos[n] = true;
+            exp_parsed[n] = true;
+            n += 1;
+        } else if kinds[i] == 1 {
+            n += 2;
+        } else {
+            n += 1;
+        }
+        i += 1;
+    }
+    assert!(st.items.len() == n);
+    let ledger = st.verif_ledger();
+    assert!(ledger.len() == n);
+    let mut present = 0;
+    let mut j = 0;
+    while j < 6 {
+        if j < n {
+            assert!(matches!(st.items[j], Arg::PosWord(_)) == exp_pos[j]);
+            assert!(ledger[j].parsed() == exp_parsed[j]);
+            if !exp_parsed[j] {
+                present += 1;
+            }
+        }
+        j += 1;
+    }
+    assert!(st.verif_remaining() == present);
+    kani::cover!(kinds[0] == 1 && kinds[1] == 0);
+    kani::cover!(kinds[0] == 0 && kinds[2] == 0);
+    std::mem::forget(st);
+    std::mem::forget(words);
+}
